@@ -254,9 +254,19 @@ def as_grid(interp, g):
 def check_regular_chunks_contract(interp, chunkset):
     """_check_regular_chunks on grids: regular grids are regular by construction; explicit tuples are
     run through the real predicate's definition."""
+    from .symseq import ConcatGrid
+
     for g in chunkset:
         if isinstance(g, (ChunkSeq, RepGrid)):
             continue
+        if isinstance(g, ConcatGrid):
+            # len(set(chunks[:-1])) > 1 -> False ; chunks[-1] > chunks[0] -> False
+            ps = g.parts
+            if len(ps) == 2 and isinstance(ps[0], RepGrid) and ps[1].concrete_len() and ps[1].length() == 1:
+                if interp.truth(ps[1].get(interp, 0) > ps[0].v):
+                    return False
+                continue
+            raise Unsupported("regularity of a general concatenated grid")
         items = tuple(as_grid(interp, g).items)
         if len(items) == 1:
             continue
